@@ -1,6 +1,7 @@
 package rigv
 
 import (
+	"sort"
 	"context"
 	"errors"
 	"fmt"
@@ -35,6 +36,7 @@ import (
 type c09State struct {
 	e        *rig.Env
 	t0       time.Time
+	variant  int
 	ackS1    []string // ack ids handed out on s1 (leases running)
 	ackOrd   []string // ack ids on the ordered subscription
 	ackDL    []string // ack ids on s3 (attempts == max: dead-letter due once the lease lapses)
@@ -82,7 +84,7 @@ func pullIDs(e *rig.Env, sub string, max int32) []string {
 // something to do: leased, due, acked, expired, dead-letter-due and
 // soft-deleted things all exist.
 func buildC09State(e *rig.Env, variant int) *c09State {
-	st := &c09State{e: e, t0: time.Now()}
+	st := &c09State{e: e, t0: time.Now(), variant: variant}
 	for _, t := range []string{c9T, c9TDL, c9TX} {
 		must(e.Pub.CreateTopic(e.Ctx, &pubsubpb.Topic{Name: t}))
 	}
@@ -98,9 +100,17 @@ func buildC09State(e *rig.Env, variant int) *c09State {
 	time.Sleep(time.Second)
 	// some acked, some leased on s1
 	ids := pullIDs(e, c9S1, 10)
-	must(e.Sub.Acknowledge(e.Ctx, &pubsubpb.AcknowledgeRequest{Subscription: c9S1, AckIds: ids[:1]}))
-	st.ackedS1 = ids[:1]
-	st.ackS1 = ids[1:]
+	acked, leased := ids[:1], ids[1:]
+	if variant%2 == 1 && len(ids) >= 4 {
+		// acknowledged out of order: a snapshot taken now carries a list of
+		// acknowledged message ids next to its time threshold, and a seek to it has
+		// one more statement to run
+		acked = []string{ids[1], ids[3]}
+		leased = append([]string{ids[0], ids[2]}, ids[4:]...)
+	}
+	must(e.Sub.Acknowledge(e.Ctx, &pubsubpb.AcknowledgeRequest{Subscription: c9S1, AckIds: acked}))
+	st.ackedS1 = acked
+	st.ackS1 = leased
 	st.ackOrd = pullIDs(e, c9S2, 1)
 	st.ackDL = pullIDs(e, c9S3, 10) // attempt 1 == max attempts
 	must(e.Sub.CreateSnapshot(e.Ctx, &pubsubpb.CreateSnapshotRequest{Name: c9Sn, Subscription: c9S1}))
@@ -278,6 +288,12 @@ func c09Ops() []c09Op {
 		}},
 		{name: "seek-to-snapshot", class: "unit",
 			prep: func(st *c09State) {
+				if st.variant%2 == 1 {
+					// everything outstanding again, also what the snapshot lists as
+					// acknowledged: every statement of the seek has rows to change
+					must(st.e.Sub.Seek(st.e.Ctx, &pubsubpb.SeekRequest{Subscription: c9S1, Target: &pubsubpb.SeekRequest_Time{Time: timestamppb.New(st.t0.Add(-time.Hour))}}))
+					return
+				}
 				must(st.e.Sub.Acknowledge(st.e.Ctx, &pubsubpb.AcknowledgeRequest{Subscription: c9S1, AckIds: st.ackS1}))
 				pullIDs(st.e, c9S1, 1)
 			},
@@ -393,6 +409,33 @@ func (o *observers) closedAndCancel() []string {
 	return out
 }
 
+// noteNames strips the row id from the notification keys (ids differ between runs).
+func noteNames(closed []string) []string {
+	var out []string
+	for _, c := range closed {
+		if i := strings.LastIndex(c, "/"); i > 0 && strings.HasPrefix(c, "publish-notification:") {
+			c = c[:i]
+		}
+		out = append(out, c)
+	}
+	sort.Strings(out)
+	return out
+}
+
+func missingNotes(want, closed []string) []string {
+	have := map[string]bool{}
+	for _, c := range noteNames(closed) {
+		have[c] = true
+	}
+	var miss []string
+	for _, wnt := range want {
+		if !have[wnt] {
+			miss = append(miss, wnt)
+		}
+	}
+	return miss
+}
+
 func runC09Op(e *rig.Env, op c09Op, variant int) *c09State {
 	st := buildC09State(e, variant)
 	if op.prep != nil {
@@ -422,10 +465,13 @@ func TestC09(t *testing.T) {
 				// fault-free twin
 				var twinAbs []string
 				var twinErr error
+				var twinNotes []string
 				rig.RunCase(t, seed, rig.Opts{}, func(e *rig.Env) {
 					st := runC09Op(e, op, v)
+					obs := watch(must(rig.TakeDump(e.RawDB())))
 					twinErr = op.run(e.Actor("op"), st)
 					rig.Quiesce()
+					twinNotes = noteNames(obs.closedAndCancel())
 					twinAbs = rig.Abstract(must(rig.TakeDump(e.RawDB())))
 				})
 				if twinErr != nil {
@@ -566,6 +612,8 @@ func TestC09(t *testing.T) {
 								col.Violation("retry-fails:"+op.name, fmt.Sprintf("%s: after %d injected %s faults the fault-free retry fails: %v", op.name, k-1, modeName[mode], err), wit())
 							} else if d := rig.DiffAbstract(twinAbs, rig.Abstract(dump1)); len(d) > 0 {
 								col.Violation("retry-differs:"+op.name, fmt.Sprintf("%s: effect of the retry after %d injected faults differs from a fault-free run: %s", op.name, k-1, strings.Join(d, " ; ")), wit())
+							} else if miss := missingNotes(twinNotes, closed); op.class == "unit" && len(miss) > 0 {
+								col.Violation("committed-without-notification:"+op.name, fmt.Sprintf("%s: the retry after %d injected faults committed the same effect as a fault-free run but did not wake %v", op.name, k-1, miss), wit())
 							}
 							col.Add("ev_statements_enumerated", int64(k-1))
 							break
@@ -579,6 +627,10 @@ func TestC09(t *testing.T) {
 							// cancellation came too late to matter)
 							if d := rig.DiffAbstract(twinAbs, rig.Abstract(dump1)); len(d) > 0 {
 								col.Violation("success-despite-failure:"+op.name, fmt.Sprintf("%s reported success although statement %d failed (%s), and its effect is incomplete: %s", op.name, k, modeName[mode], strings.Join(d, " ; ")), wit())
+							} else if miss := missingNotes(twinNotes, closed); op.class == "unit" && len(miss) > 0 {
+								// R5: the whole effect is there - then so is its announcement: a
+								// waiter that is not told sleeps on a change that has happened
+								col.Violation("committed-without-notification:"+op.name, fmt.Sprintf("%s reported success although statement %d failed (%s); its effect is complete, but the waiters a fault-free run wakes were not all woken: missing %v", op.name, k, modeName[mode], miss), wit())
 							}
 							col.Add("ev_success_despite_fault", 1)
 							break
